@@ -61,26 +61,48 @@ type nbAnswer struct {
 	ip   net.IP
 }
 
-// parseResponse is the harness's own tolerant reader: server responses copy the request's QDCOUNT
-// but carry no question, so records are read right after the header.
+// parseResponse is the harness's own tolerant reader. The pinned servers copy the request's QDCOUNT into the
+// response but carry no question; a corrected server might echo the question(s) or send QDCOUNT 0. Both layouts
+// are tried: questions present as announced, or records right after the header.
 func parseResponse(b []byte) nbResp {
+	if len(b) >= 12 {
+		qd := int(binary.BigEndian.Uint16(b[4:]))
+		if r, ok := parseResponseAt(b, qd); ok {
+			return r
+		}
+	}
+	r, _ := parseResponseAt(b, 0)
+	return r
+}
+
+func parseResponseAt(b []byte, questions int) (nbResp, bool) {
 	var r nbResp
 	if len(b) < 12 {
-		return r
+		return r, false
 	}
 	r.id = binary.BigEndian.Uint16(b[0:])
 	r.flags = binary.BigEndian.Uint16(b[2:])
 	r.rcode = int(r.flags & 0xF)
 	r.ancount = int(binary.BigEndian.Uint16(b[6:]))
 	off := 12
+	for i := 0; i < questions; i++ {
+		if off >= len(b) {
+			return r, false
+		}
+		nl := int(b[off])
+		off += 1 + nl + 4
+		if off > len(b) || nl < 32 {
+			return r, false
+		}
+	}
 	for i := 0; i < r.ancount; i++ {
 		if off >= len(b) {
-			return r
+			return r, false
 		}
 		nl := int(b[off])
 		off++
 		if off+nl+10 > len(b) || nl < 32 {
-			return r
+			return r, false
 		}
 		enc := b[off : off+32]
 		off += nl
@@ -91,13 +113,13 @@ func parseResponse(b []byte) nbResp {
 		rdl := int(binary.BigEndian.Uint16(b[off+8:]))
 		off += 10
 		if off+rdl > len(b) {
-			return r
+			return r, false
 		}
 		r.answers = append(r.answers, nbAnswer{name: strings.TrimRight(string(dec), " "), ip: net.IP(append([]byte(nil), b[off:off+rdl]...))})
 		off += rdl
 	}
 	r.parsed = off == len(b)
-	return r
+	return r, r.parsed
 }
 
 // ---------------------------------------------------------------- systems under test
